@@ -1095,6 +1095,10 @@ def update_detector_states(
             E_pad=pad_fields_with_symmetry_mirror(arrays.fields.E, objects, config, "E"),
             H_pad=pad_fields_with_symmetry_mirror((H_prev + arrays.fields.H) / 2, objects, config, "H"),
             config=config,
+            # a symmetry axis keeps its mirror on the min side, every other wrap-padded axis wraps there
+            periodic_axes=tuple(
+                wraps and config.symmetry[axis] == 0 for axis, wraps in enumerate(get_wrap_padding_axes(objects))
+            ),
         )
 
     def helper_fn(E: jax.Array, H: jax.Array, H_prev: jax.Array, detector: Detector) -> DetectorState:
